@@ -220,6 +220,52 @@ def lr_rolling(V, cin, mid_dtype, out_dtype):
             ("buffer is at least producer stripe + consumer input rows", L(shape.height) >= L(P) + cin)]
 
 
+def build_twice(V, cin, spilling):
+    """CascadeBuilder.build_cascades called twice on the same builder with two different stripe proposals (what
+    Scheduler.optimize_sub_schedule does): the rolling buffer recorded for the cascade of each call must be the one for THAT call's
+    producer stripe - a buffer computed for another proposal is too small (rows overwritten) or too large."""
+    import ethosu.vela.cascade_builder as cb
+    import ethosu.vela.numeric_util as nu
+    from ethosu.vela.operation import Op, NpuBlockType
+    from ethosu.vela.data_type import DataType
+    from ethosu.vela.shape4d import Shape4D
+
+    W, C, CM, H = 8, 16, 64, 64  # the intermediate feature map is 4x deeper than input/output, so cascading saves SRAM
+
+    def mkop(idx, ic, oc):
+        return _Obj(op_type=_Obj(npu_block_type=NpuBlockType.ConvolutionMxN, is_elementwise_op=lambda: False), index=idx, name="op%d" % idx,
+                    ofm=_Obj(shape=Shape4D(1, H, W, oc), dtype=DataType.int8), ifm=_Obj(shape=Shape4D(1, H, W, ic), dtype=DataType.int8),
+                    parent_op=_Obj(read_offsets=[None, None], type=Op.Conv2DBias, attrs={}, memory_function=None), requires_full_ifm=False,
+                    requires_full_ifm2=False, requires_full_ofm=False, ifm_size_in_bytes=lambda: H * W * ic, ofm_size_in_bytes=lambda: H * W * oc,
+                    ifm2_size_in_bytes=lambda: 0)
+
+    prod, cons = mkop(0, C, CM), mkop(1, CM, C)
+    prod.get_dependants = lambda: [cons]
+    cons.get_dependants = lambda: []
+    builder = cb.CascadeBuilder([prod, cons], bool(spilling), None)
+    results = []
+    with core.shims((cb, {"max": core.smax, "min": core.smin})):
+        for call in (1, 2):
+            P = V.int("producer_stripe_%d" % call, 1, 32)
+
+            def info(stripe_h, sin, ic, oc):
+                return _Obj(stripe=Shape4D(1, stripe_h, W, oc), stripe_input=Shape4D(1, sin, W, ic), buffered_weight_tensors=[], cascade=0)
+
+            ref = _Obj(cost_map={prod: info(P, P, C, CM), cons: info(1, cin, CM, C)}, cascades={})
+            fb = _Obj(cost_map={prod: info(H, H, C, CM), cons: info(H, H, CM, C)})
+            out = builder.build_cascades(ref, fb, 20000)
+            results.append((P, out))
+    cl = []
+    for call, (P, out) in enumerate(results, 1):
+        for end, ci in out.cascades.items():
+            if cons in ci.buffers:
+                bh = ci.buffers[cons].height
+                want = ((L(P) + cin + cin - 1) / cin) * cin
+                cl.append(("call %d: rolling buffer recorded for the cascade is the one for this call's producer stripe" % call, L(bh) == want))
+    cl.append(("both proposals produced a cascade with a rolling buffer", len(cl) == 2))
+    return cl
+
+
 def _tensor(name, shape, dt):
     from ethosu.vela.tensor import Tensor, MemArea, MemType, TensorPurpose
 
@@ -235,7 +281,7 @@ def rolling(V, **params):
     return c10.cascade(V, **params)
 
 
-FUNCS = {"lut": lut, "wbuf": wbuf, "rolling": rolling, "lr_rolling": lr_rolling}
+FUNCS = {"lut": lut, "wbuf": wbuf, "rolling": rolling, "lr_rolling": lr_rolling, "build_twice": build_twice}
 
 
 def instances(tier, seed):
@@ -249,6 +295,9 @@ def instances(tier, seed):
     for cin in (1, 2, 3, 5, 8):
         for md, od in (("int8", "int8"), ("int16", "int8"), ("int8", "int16"), ("int16", "int16")):
             out.append(dict(key="lr_rolling/cin%d/%s_%s" % (cin, md, od), fn="lr_rolling", params=dict(cin=cin, mid_dtype=md, out_dtype=od)))
+    for cin in (1, 3, 4):
+        for sp in (0, 1):
+            out.append(dict(key="build_twice/cin%d/spill%d" % (cin, sp), fn="build_twice", params=dict(cin=cin, spilling=sp), weight=5))
     from harness import c10
 
     for inst in c10.instances(tier, seed):
